@@ -479,7 +479,8 @@ func (fr *Frame) applyContract(callee *ssa.Function, fc *FuncContract, bindings 
 			cur := c.get(st, w)
 			inner := innerSortOf(c.heapSorts[w])
 			for _, r := range atRefs[w] {
-				cur = Store(cur, r, c.fresh(w+"_obj", inner))
+				// the nil object (reference 0) has no storage to change
+				cur = Ite(Eq(r, IntLit(0)), cur, Store(cur, r, c.fresh(w+"_obj", inner)))
 			}
 			c.set(st, w, cur)
 		case isLocationHeap(w):
